@@ -92,10 +92,10 @@ def extract(ck):
             L(acc_s, S), L(acc_l, S), L(writers, lambda w: "(%s, %s)" % (S(w), B(packs(w)))),
             L(readers, lambda r: "(%s, %s)" % (S(r), B(unpacks(r)))), B(two), B(portable))
     except (X.ExtractError, Exception) as e:
-        ck.tie_fail("extraction of the format dispatch failed: %r" % e)
-        return None
-    ck.gen("C18", body)
-    return dict(save=dict(tab_s), load=dict(tab_l), accepted=acc_s)
+        return ck.tie_fallback("C18", "extraction of the format dispatch failed: %r" % e)
+    facts = dict(save=dict(tab_s), load=dict(tab_l), accepted=acc_s)
+    ck.gen("C18", body, facts=facts)
+    return facts
 
 
 def run(ck):
@@ -160,7 +160,11 @@ def run(ck):
                             N = shape[0]
                             d = numpy.array([rng.uniform(-3, 3) * 10 ** rng.randint(-8, 8) for _ in range(int(numpy.prod(shape)))]).reshape(shape)
                             if cplx:
-                                d = d + 1j * numpy.array([rng.uniform(-3, 3) for _ in range(d.size)]).reshape(shape)
+                                # one scale for the whole imaginary part: small signals (1e-9 .. 1e-12) are data too
+                                isc = 10.0 ** rng.choice([-12, -9, -6, 0, 0, 3])
+                                d = d + 1j * isc * numpy.array([rng.uniform(-3, 3) for _ in range(d.size)]).reshape(shape)
+                                if isc < 1e-7 and rng.random() < 0.5:
+                                    d = d * 1e-9 / max(1e-300, float(numpy.abs(d.real).max())) if numpy.abs(d.real).max() > 0 else d
                             axis = TimeAxis(rng.choice([0.0, 100.0, -3.5]), N, rng.choice([1.0, 2.5, 0.1])) if with_axis else None
                             ax0 = axis.data.copy() if axis is not None else None
                             inp = {"format": ext, "shape": list(shape), "complex": cplx, "with_axis": with_axis}
